@@ -71,6 +71,28 @@ macro_rules! scan {
         }
     };
 }
+// the same for 1-byte inputs (no multi-byte character fits: that cover would be unsatisfiable)
+macro_rules! scan1 {
+    ($name:ident, $len:expr, $unw:expr, $scanner:ident, |$tok:ident, $rest:ident| $shape:block) => {
+        #[kani::proof]
+        #[kani::unwind($unw)]
+        #[kani::stub(char::is_alphanumeric, stub_alnum)]
+        #[kani::stub(char::is_alphabetic, stub_alpha)]
+        #[kani::stub(char::is_whitespace, stub_ws)]
+        fn $name() {
+            let buf: [u8; $len] = kani::any();
+            kani::assume(wf::<$len>(&buf));
+            let s = unsafe { std::str::from_utf8_unchecked(&buf) };
+            let r = $scanner(s);
+            let accepted = r.is_ok();
+            if let Ok(($rest, $tok)) = r {
+                faithful(s, $rest, $tok);
+                $shape
+            }
+            kani::cover!(accepted, "some input is accepted");
+        }
+    };
+}
 macro_rules! scan_nocover_accept {
     ($name:ident, $len:expr, $unw:expr, $scanner:ident) => {
         #[kani::proof]
@@ -107,8 +129,8 @@ fn has_colon(t: &str) -> bool {
 scan_nocover_accept!(variable_l1, 1, 5, sparql_variable);
 scan_nocover_accept!(iri_l1, 1, 5, sparql_iri);
 scan_nocover_accept!(blank_node_l1, 1, 5, sparql_blank_node);
-scan!(prefixed_name_l1, 1, 5, sparql_prefixed_name, |tok, rest| { assert!(has_colon(tok)); });
-scan!(numeric_literal_l1, 1, 5, sparql_numeric_literal, |tok, rest| { assert!(num_bytes_ok(tok)); });
+scan1!(prefixed_name_l1, 1, 5, sparql_prefixed_name, |tok, rest| { assert!(has_colon(tok)); });
+scan1!(numeric_literal_l1, 1, 5, sparql_numeric_literal, |tok, rest| { assert!(num_bytes_ok(tok)); });
 // ---- L = 2
 scan!(variable_l2, 2, 6, sparql_variable, |tok, rest| { assert!(tok.len() >= 2 && (b0(tok) == b'?' || b0(tok) == b'$')); });
 scan!(iri_l2, 2, 6, sparql_iri, |tok, rest| { assert!(tok.len() >= 2 && b0(tok) == b'<' && bl(tok) == b'>'); });
